@@ -466,10 +466,12 @@ func (enc Encryptor) encryptZeroSkFromC1QP(sk *SecretKey, ct Element[ringqp.Poly
 	}
 
 	ringQP.NTT(c0, c0)
-	// ct[1] is assumed to be sampled in of the Montgomery domain,
-	// thus -as will also be in the Montgomery domain (s is by default), therefore 'e'
-	// must be switched to the Montgomery domain.
-	ringQP.MForm(c0, c0)
+	// If ct[1] is declared to be in the Montgomery domain, then -as will also be
+	// in the Montgomery domain (s is by default), therefore 'e' must be switched
+	// to the Montgomery domain. Else -as is in the plain domain and so must be 'e'.
+	if ct.IsMontgomery {
+		ringQP.MForm(c0, c0)
+	}
 
 	// (-a*sk + e, a)
 	ringQP.MulCoeffsMontgomeryThenSub(c1, sk.Value, c0)
